@@ -1,7 +1,7 @@
 (* Corr/C13Run.v — correspondence evaluator for C13: runs the block/table models on the bytes and
    calls the harness observed on the implementation and returns the indexes that disagree.
    Depends on model files only. *)
-From GL Require Import Base.Bytes Base.Varint Base.Cursor Codec.Block Codec.Table Codec.TblCrc Gen.InstTbl Corr.Cmps.
+From GL Require Import Base.Bytes Base.Varint Base.Cursor Codec.Block Codec.Table Codec.TableCheck Codec.TblCrc Gen.InstTbl Corr.Cmps.
 From Coq Require Import String.
 
 Definition hpair := (string * string)%type.
@@ -50,6 +50,7 @@ Definition fobs_eqb (m : find_res) (o : fobs) : bool :=
 
 Inductive tquery :=
 | QAll (kvs : list hpair)                        (* full forward scan of NewIterator(nil) *)
+| QCheck (ri : N) (kvs : list hpair)             (* format membership: table_check (TableCheck.v) accepts the file and yields kvs *)
 | QFind (key : string) (o : fobs)                (* Find(key, filtered = false) *)
 | QGet (key : string) (o : fobs)                 (* Get(key) *)
 | QGetF (key : string) (o : fobs)                (* Find(key, filtered = true) reduced to exact match *)
@@ -85,6 +86,11 @@ Definition run_query (c : comparer) (rd : treader) (fuel : nat) (q : tquery) : b
                  | None => false
                  end
       | inl _ => false
+      end
+  | QCheck ri kvs =>
+      match table_check c rd ri with
+      | Some l => kvs_eqb l (kvs_of kvs)
+      | None => false
       end
   | QFind key o => fobs_eqb (tfind c rd (unhex key) false) o
   | QGet key o => fobs_eqb (tget c rd (unhex key)) o
